@@ -86,6 +86,28 @@ def md_numeric_equal(a, b):
     return True
 
 
+def earlier_write_with_custom_formatters(src):
+    """Another table with the same category names is written with
+    `format_fs={category: f}`; what `f` does is that call's business only."""
+    import h5py
+    from biom import Table
+    from .. import h5spec
+    cats = sorted({k for key in ("obs_md", "samp_md")
+                   for m in (src[key] or []) for k in (m or {})})
+    if not cats:
+        return
+
+    def custom(grp, header, md, compression):
+        name = header.replace("/", "@@SLASH@@")
+        grp.create_dataset(name, shape=(len(md),),
+                           dtype=h5py.string_dtype(),
+                           data=[b"written by a custom formatter"] * len(md))
+    md = [{c: "x" for c in cats}]
+    small = Table(np.array([[1.0]]), ["o"], ["s"], md, md)
+    with h5spec.mem_file() as f:
+        small.to_hdf5(f, "earlier", format_fs={c: custom for c in cats})
+
+
 def write(t, path, case):
     import h5py
     from biom.parse import save_table
@@ -156,6 +178,11 @@ def check(case, rec):
         names = ["t.biom", "t.biom", "t.h5", "otu_table.txt", "t.json",
                  "table.tsv", "t"]
         path = os.path.join(d, names[len(case["generated_by"]) % len(names)])
+        if len(case["generated_by"]) % 3 == 0:
+            # an unrelated earlier write used custom formatters for the
+            # same category names
+            earlier_write_with_custom_formatters(src)
+            rec.cls("after-a-write-with-custom-formatters")
         write(t, path, case)
         after_write = observe.snapshot(t)
         if after_write != src:
